@@ -208,6 +208,87 @@ theorem progress_measure_failure (c : Cfg) (s s' : St) (d n : Nat)
   · exact key _ (Or.inr rfl) (by simpa [step] using h)
   · exact key _ (Or.inl rfl) (by simpa [step] using h)
 
+/-! ### mechanical / player-controlled ejects -/
+
+/-- **a manual eject with no request is adopted, not lost**: when the player lets go of a ball that rests in an idle mechanical
+device (nothing queued, no eject in progress), the enabled transition `manualLeft d t` moves the ball's *claim* from the
+device to the target (`available_balls` −1 / +1, so the sum over all nodes is unchanged), makes the device track an eject
+towards `t` (`_current_target`), registers the ball as incoming at `t`, and keeps it in the belief ledger (`balls`, `counted`,
+in-flight and `num_balls_known` unchanged: it is still counted in the device until the eject is confirmed).  On the
+unrepaired code the claim was duplicated instead of moved (fixed: 336f23e). -/
+theorem manual_eject_adopted (c : Cfg) (s s' : St) (d t : Nat) (hne : d ≠ t) (hla : s.avail.length = c.n)
+    (hlc : s.cur.length = c.n) (hli : s.inc.length = c.n) (h : step c s (.manualLeft d t) = some s') :
+    s'.a d = s.a d - 1 ∧ s'.a t = s.a t + 1 ∧ total s'.avail = total s.avail ∧ s'.cu d = some t ∧
+    s'.incOf t = s.incOf t ++ [d] ∧ s'.balls = s.balls ∧ s'.counted = s.counted ∧ s'.inflight = s.inflight ∧
+    s'.known = s.known ∧ s'.queue = s.queue ∧ s'.reqs = s.reqs := by
+  simp only [step] at h
+  split at h
+  · rename_i hg
+    simp only [Bool.and_eq_true, decide_eq_true_eq, beq_iff_eq] at hg
+    have hd : d < c.n := hg.1.1.1.1.1.1.1.1.1.1
+    have ht : t < c.n := hg.1.1.1.1.1.1.1.1.1.2
+    cases h
+    refine ⟨?_, ?_, ?_, ?_, ?_, rfl, rfl, rfl, rfl, rfl, rfl⟩
+    · simp only [St.a, getD_bump, length_bump, hla, hd, ht, and_true, hne, if_false, if_true]; omega
+    · simp only [St.a, getD_bump, length_bump, hla, hd, ht, and_true, Ne.symm hne, if_false, if_true]
+    · rw [total_bump2 _ _ _ _ _ (by omega) (by omega)]; omega
+    · simp only [St.cu, getD_setAt, hlc, hd, and_true, if_true]
+    · simp only [St.incOf, getD_setAt, hli, ht, and_true, if_true]
+  · simp at h
+
+/-- **no stuck manual eject**: while such an adopted eject waits for its confirmation (device still `idle`, target set) the
+confirm window can always close (`manualTimeout`), after which the ordinary late-confirm / ball-returned transitions apply; -/
+theorem manual_eject_can_time_out (c : Cfg) (s : St) (d t : Nat) (hd : d < c.n) (hpf : c.isPf d = false)
+    (hm : s.man d = true) (hp : s.ph d = .idle) (hc : s.cu d = some t) (hb : s.b d > 0) :
+    ∃ s', step c s (.manualTimeout d) = some s' ∧ s'.phase = setAt s.phase d .failedConfirm ∧ s'.cur = s.cur :=
+  ⟨{ s with phase := setAt s.phase d .failedConfirm, balls := bump s.balls d (-1), inflight := s.inflight + 1 },
+   by simp [step, hd, hpf, hm, hp, hc, hb], rfl, rfl⟩
+
+/-- — and when the plunged ball comes back (`manualReturn`) the request is **kept and retried**: the device's target and its
+queue are unchanged, the attempt counter starts at 0, and the eject loop's `waitTarget` (which credits the ball back to the
+device) is enabled right away.  On the unrepaired code the device hung here for ever with its count lock held (fixed: 3f8a4e5). -/
+theorem manual_return_is_retried (c : Cfg) (s s' : St) (d : Nat) (hlf : s.failed.length = c.n) (hlt : s.tries.length = c.n)
+    (h : step c s (.manualReturn d) = some s') :
+    s'.cur = s.cur ∧ s'.tries.getD d 0 = 0 ∧ s'.queue = s.queue ∧ (step c s' (.waitTarget d)).isSome = true := by
+  simp only [step] at h
+  split at h
+  · rename_i t hcu
+    split at h
+    · rename_i hg
+      simp only [Bool.and_eq_true, decide_eq_true_eq, beq_iff_eq, Bool.not_eq_true'] at hg
+      have hd : d < c.n := hg.1.1.1.1.1.1.1.1
+      have hpf : c.isPf d = false := hg.1.1.1.1.1.2
+      have hph : s.ph d = .failedConfirm := hg.1.1.1.2
+      have hbc : s.b d < s.c d := hg.2
+      have hs' := (Option.some.inj h).symm
+      have e1 : s'.phase = s.phase := by rw [hs']
+      have e2 : s'.balls = s.balls := by rw [hs']
+      have e3 : s'.counted = s.counted := by rw [hs']
+      have e4 : s'.failed = setAt s.failed d true := by rw [hs']
+      have e5 : s'.tries = setAt s.tries d 0 := by rw [hs']
+      have e6 : s'.cur = s.cur := by rw [hs']
+      have e7 : s'.queue = s.queue := by rw [hs']
+      have hph' : s'.ph d = .failedConfirm := by simpa [St.ph, e1] using hph
+      have hfa : s'.failed.getD d false = true := by rw [e4, getD_setAt]; simp [hlf, hd]
+      have hcc : canCredit s' d = true := by
+        simp only [canCredit, St.b, St.c, e2, e3, Bool.or_eq_true, decide_eq_true_eq]
+        exact Or.inr hbc
+      refine ⟨e6, by rw [e5, getD_setAt]; simp [hlt, hd], e7, ?_⟩
+      have hfa' : s'.failed[d]?.getD false = true := by simpa using hfa
+      simp [step, hd, hpf, hph', hcc, hfa']
+    · simp at h
+  · simp at h
+
+/-- the hypotheses are satisfiable: a ball rests, claimed, in an idle mechanical plunger (node 1, playfield 2); the player
+plunges it, the confirm window closes, the ball rolls back, the eject loop takes over and the ball is plunged again -/
+example : (run { n := 3, pf := [false, false, true], cap := [3, 1, 0], maxT := [3, 0, 0], edges := [(0, 1), (1, 2)], missing := 2,
+                 mech := [false, true, false] }
+    (initSt { n := 3, pf := [false, false, true], cap := [3, 1, 0], maxT := [3, 0, 0], edges := [(0, 1), (1, 2)], missing := 2,
+              mech := [false, true, false] } [1, 1, 0])
+    [.manualLeft 1 2, .manualTimeout 1, .manualReturn 1, .waitTarget 1, .attempt 1 2 0, .ejectStart 1 2, .ballLeft 1,
+     .confirm 1 2]).map (fun s => (s.balls, s.avail, s.inflight, s.known, s.delivered)) = some ([1, 0, 1], [1, 0, 1], 0, 2, 1) := by
+  decide
+
 /-- the measure is meaningful: a fresh eject of a device with 3 attempts starts at 29 and a first failure leaves 24 -/
 example : devMeasure { n := 2, pf := [false, true], cap := [3, 0], maxT := [3, 0], edges := [(0, 1)], missing := 1 }
     { (initSt { n := 2, pf := [false, true], cap := [3, 0], maxT := [3, 0], edges := [(0, 1)], missing := 1 } [1, 0]) with
